@@ -15,11 +15,11 @@ TAU = z3.RealVal("1/10000")
 
 
 class HEnv:
-    def __init__(self, h):
+    def __init__(self, h, gives_up=False):
         self.h = h
         install_numpy_h(h.I)
         self.space = AbstractSpace(h.ctx)
-        self.lp = LP(h, lambda c, A: self.space)
+        self.lp = LP(h, lambda c, A: self.space, gives_up=gives_up)
         self.lp.install()
         self.dim = Dim("m")
         self.cls = h.I.get_class(POLY + ":PolyhedralTermList")
@@ -78,19 +78,35 @@ def c_is_empty(h):
 
 
 # ------------------------------------------------------------------------------------------------
-def _containment(nl, nr):
+def _containment(nl, nr, gives_up=False):
     def c(h):
-        e = HEnv(h)
+        e = HEnv(h, gives_up)
         al, bl = e.matrix("l", nl)
         ar, br = e.matrix("r", nr)
         out = h.call(e.fn("verify_polytope_containment"), [al, bl, ar, br])
         L, R = e.poly(al.rows, bl.data), e.poly(ar.rows, br.data)
         calls = e.lp.calls
+        # A4 at the loop's LPs: the tested row, relaxed by one, is among the constraints, so the objective -(row) is bounded
+        # below by -(b_r[i]+1) on the feasible set and "unbounded" cannot be a true answer - that path is infeasible under A4
+        for c_ in calls[2:]:
+            if c_.status == 3 and not c_.gave_up:
+                h.assume(c_.inst_unbounded(-to_real(c_.b[-1]))[1], "A4.unbounded_means_below_every_bound")
+        if any(c_.gave_up for c_ in calls):
+            # outside A4: an answer without information.  The emptiness tests may refuse (ValueError, "Cannot decide
+            # emptiness"); a containment test that got no optimum must leave containment unestablished - never True, and
+            # never another exception
+            h.cover("solver_gave_up")
+            if out.kind == "raise":
+                h.check("C14.containment.solver_gave_up.only_valueerror", out.exc_is(h.I, ValueError), "raised %s at %s" % (out.exc_name, out.where))
+                h.check("C14.containment.solver_gave_up.valueerror_only_from_emptiness_test", any(c_.gave_up for c_ in calls[:2]), "ValueError although both emptiness tests were answered")
+            elif any(c_.gave_up for c_ in calls[2:]):
+                h.check("C03.containment.solver_gave_up.not_established", out.value is False, "returned %r after an LP without optimum" % (out.value,))
+            return
         if out.kind == "raise":
             # every exception must be unreachable under A4; for status 3 inside the loop the objective is bounded below
             hints = []
             for c_ in calls:
-                if c_.status == 3:
+                if c_.status == 3 and not c_.gave_up:
                     bound = -to_real(c_.b[-1])  # objective = -(tested row) >= -(b_r[i]+1) on the feasible set
                     _, fact = c_.inst_unbounded(bound)
                     hints.append(fact)
@@ -134,9 +150,9 @@ for _nl, _nr, _tier in [(1, 1, "quick"), (2, 1, "quick"), (1, 2, "quick"), (2, 2
 
 
 # ------------------------------------------------------------------------------------------------
-def _reduce(n, nh):
+def _reduce(n, nh, gives_up=False):
     def c(h):
-        e = HEnv(h)
+        e = HEnv(h, gives_up)
         a, b = e.matrix("a", n)
         if nh is None:
             args = [a, b]
@@ -157,7 +173,10 @@ def _reduce(n, nh):
         h.check("C07.reduce.each_test_maximises_one_of_its_rows", tested_ok, "an LP objective is not the negation of one of the LP's rows")
         if not tested_ok:
             return
-        unb = [c_.inst_unbounded(-to_real(c_.b[_tested_index(c_)]))[1] for c_ in calls if c_.status == 3]
+        unb = [c_.inst_unbounded(-to_real(c_.b[_tested_index(c_)]))[1] for c_ in calls if c_.status == 3 and not c_.gave_up]
+        for fact in unb:
+            # A4: the tested row, relaxed by one, is among the constraints - an "unbounded" answer is impossible
+            h.assume(fact, "A4.unbounded_means_below_every_bound")
         if out.kind == "raise":
             if out.exc_is(h.I, ValueError):
                 h.cover("ValueError")
@@ -187,6 +206,13 @@ def _reduce(n, nh):
             return
         for k, jj in enumerate(idx):
             h.ensure("C07.reduce.constant_unchanged_%d" % k, to_real(rb.data[k]) == to_real(b0[jj]))
+        for c_ in calls:
+            if c_.gave_up:
+                # outside A4: an LP answered without an optimum says nothing about redundancy - its row stays
+                h.cover("solver_gave_up")
+                ti = _tested_index(c_)
+                kept = any(c_.rows[ti].same_functional(a.rows[jj]) for jj in idx)
+                h.check("C07.reduce.solver_gave_up.row_is_kept", kept, "a row was dropped although its LP had no optimum (status %d)" % c_.status)
         Ared = e.poly(ra.rows, rb.data)
         hints = list(base_hints)
         for c_ in calls:
@@ -206,8 +232,8 @@ def _reduce(n, nh):
         if not (n == 1 and nh is None) and n > 0:
             for k, jj in enumerate(idx):
                 c_ = tested.get(jj)
-                h.check("C07.reduce.kept_row_was_tested_%d" % k, c_ is not None and c_.status == 0, "row %d kept without a bounded test" % jj)
-                if c_ is not None and c_.status == 0:
+                h.check("C07.reduce.kept_row_was_tested_%d" % k, c_ is not None and (c_.status == 0 or c_.gave_up), "row %d kept without a bounded test" % jj)
+                if c_ is not None and c_.status == 0 and not c_.gave_up:
                     w = c_.witness
                     others = z3.And(*[e.space.ev(ra.rows[q], w) <= to_real(rb.data[q]) for q in range(len(idx)) if q != k]) if len(idx) > 1 else z3.BoolVal(True)
                     bk = to_real(rb.data[k])
@@ -254,3 +280,30 @@ for _n, _nh, _tier in [(0, None, "quick"), (1, None, "quick"), (2, None, "quick"
         tier=_tier,
         covers=["return"],
     )(_reduce(_n, _nh))
+
+
+# ------------------------------------------------------------------------------------------------
+# outside A4: the solver answers 1, 4 or an untrue 3 (no optimum, no information).  The property quantifies over inputs, not over
+# solvers that behave: on such an answer reduce_polytope keeps the row and containment stays unestablished.
+# ------------------------------------------------------------------------------------------------
+GIVES_UP = "A4 for the answers 0/2/3 that carry their meaning; any LP may instead answer 1, 4 or an untrue 3 with no optimum"
+for _nl, _nr in [(1, 1), (2, 1), (1, 2)]:
+    contract(
+        "PolyhedralTermList.verify_polytope_containment[%dx%d,solver may give up]" % (_nl, _nr),
+        ["C03", "C14", "C13"],
+        [PTL + "verify_polytope_containment", PTL + "is_polytope_empty"],
+        "H",
+        bound="%d left rows, %d right rows, any number of columns; every LP may be answered without an optimum" % (_nl, _nr),
+        assumes=["A4", "A5", "A3"],
+        covers=["True", "False", "solver_gave_up"],
+    )(_containment(_nl, _nr, True))
+for _n, _nh in [(2, None), (3, None), (2, 1)]:
+    contract(
+        "PolyhedralTermList.reduce_polytope[%d rows,%s context,solver may give up]" % (_n, "no" if _nh is None else "%d-row" % _nh),
+        ["C07", "C14", "C13"],
+        [PTL + "reduce_polytope"],
+        "H",
+        bound="%d rows, %s context rows, any number of columns; every LP may be answered without an optimum" % (_n, 0 if _nh is None else _nh),
+        assumes=["A4", "A5", "A3"],
+        covers=["return", "solver_gave_up"],
+    )(_reduce(_n, _nh, True))
